@@ -23,3 +23,11 @@ package cmd
 //@   modifies *
 //@   callspec MakeEfiVariableReader requires[C16] p0 == c.efivarloc
 //@   atcall Endorsement requires[C16] p0 != nil && p0.EventLogLocation == c.eventlogpath && p0.FirmwareManufacturer == c.manufacturer && p0.ForceFetch == c.forceFetch && same(p0.Quote, c.content) && same(p0.Getter, backend.Getter) && same(p0.UEFIVariableReader, reader)
+
+// C19: the inspect command renders with exactly the form its --bytesform flag names; in particular "auto" stays auto,
+// so that the choice between base64 and the exact bytes is made by WriteBytesForm from the writer itself (terminal or
+// not) and never from the output path.
+//@ func (*inspectCommand).persistentPreRunE
+//@   requires c != nil && cmd != nil
+//@   modifies *
+//@   ensures[C19] err == nil ==> c.bytesForm == ite(c.form == "bin", 0, ite(c.form == "hex", 1, ite(c.form == "base64", 3, 4))) && (c.form == "bin" || c.form == "hex" || c.form == "base64" || c.form == "auto")
